@@ -1,7 +1,7 @@
 """C02 Factors reproduce the permuted matrix; pivoting bounds hold  —  pivot rule, perm_r discipline, inverse permutations, R9 + twins."""
 from ..facts import Program
 from ..run import Check, AnalysisBroken
-from ..rules import pivot, factor_tail, r9_sibling, r7_perm, r11_kinds, kernels
+from ..rules import pivot, factor_tail, r9_sibling, r7_perm, r11_kinds, kernels, misc
 from . import _drv
 
 R9_UNITS = ['gstrf.c', 'pivotL.c', 'panel_dfs.c', 'column_dfs.c', 'snode_dfs.c', 'pruneL.c', 'column_bmod.c', 'panel_bmod.c', 'snode_bmod.c', 'copy_to_ucol.c',
@@ -30,6 +30,9 @@ def run(tier):
         chk.clause('C02.D2', 'perm_r discipline and inverse permutations in ?gstrf')
         r11_kinds.run(chk, 'C02.kinds', prog, cfgname, floor=1900)
         kernels.run_factor(chk, 'C02.kern', prog, cfgname)
+        chk.clause('C02.options', 'option-controlled choices of ?gstrf / ?gsitrf (relaxation routine, use of remembered pivots)')
+        for _p in _drv.PRECS:
+            misc.option_choice_rules(chk, 'C02.options', prog, _p, cfgname)
         from . import c09
         c09.init_rule(chk, prog, cid='C02.init')
         n1 = n2 = 0
